@@ -284,3 +284,48 @@ Theorem missing_required_lenient_ok : forall f d,
   fmt_ok f = true -> opts_listed_ok f = true -> parse f true (render d) <> Err CannotParse.
 Proof. exact missing_required_lenient_lemma. Qed.
 Print Assumptions missing_required_lenient_ok.
+
+(* ---- clause 6: the values fit in number and reach every required argument, but a text does not convert; both modes ----
+   a line of this kind is parsed, in either mode, by converting what it stores - nothing else can go wrong *)
+Theorem conversion_is_all_that_is_left : forall f d, fmt_ok f = true -> forms_ok f d = true ->
+  shape (get_arguments_all f) (values d) = true -> req_ok (get_arguments_all f) (values d) = true ->
+  forall len, parse f len (render d) =
+    do a1 <- set_arguments f {| ar_opts := []; ar_args := [] |} (place (get_arguments_all f) (values d));
+    set_options f a1 (fold_left SpellOpts.raw_event (events d) []).
+Proof. exact parse_form_line. Qed.
+Print Assumptions conversion_is_all_that_is_left.
+(* a positional text: fits = shape and every text converts *)
+Theorem unconvertible_positional_rejected : forall f d, fmt_ok f = true -> forms_ok f d = true ->
+  shape (get_arguments_all f) (values d) = true -> req_ok (get_arguments_all f) (values d) = true ->
+  fits (get_arguments_all f) (values d) = false ->
+  forall len, parse f len (render d) = Err ValueError.
+Proof. exact unconvertible_positional_rejected_lemma. Qed.
+Print Assumptions unconvertible_positional_rejected.
+(* the text s of ONE occurrence of option o (item_text: "--o=s", "--o s", "-os", "-o s", "-abos", "-abo s"); o is
+   multi-valued, or no later item mentions o - a single-valued option keeps what its LAST mention gives
+   (ClassifyLineLemmas.ValueExamples.overwritten_bad_text_accepted, ClassifyLemmas.overwritten_bad_value_accepted) *)
+Theorem unconvertible_option_value_rejected : forall f d its1 it its2 o s, fmt_ok f = true -> forms_ok f d = true ->
+  shape (get_arguments_all f) (values d) = true -> req_ok (get_arguments_all f) (values d) = true ->
+  ld_items d = its1 ++ it :: its2 -> item_text it = Some (o, s) ->
+  res_ok (parse_typed (o_type o) (o_nullable o) (VStr s)) = false ->
+  (o_multi o = true \/ SpellDenote.mentions (o_long o) (flat_map item_events its2) = false) ->
+  forall len, parse f len (render d) = Err ValueError.
+Proof. exact unconvertible_option_item_rejected_lemma. Qed.
+Print Assumptions unconvertible_option_value_rejected.
+(* the same on the events of the line *)
+Theorem unconvertible_option_event_rejected : forall f d o s es1 es2, fmt_ok f = true -> forms_ok f d = true ->
+  shape (get_arguments_all f) (values d) = true -> req_ok (get_arguments_all f) (values d) = true ->
+  events d = es1 ++ (o, GText s) :: es2 ->
+  res_ok (parse_typed (o_type o) (o_nullable o) (VStr s)) = false ->
+  (o_multi o = true \/ SpellDenote.mentions (o_long o) es2 = false) ->
+  forall len, parse f len (render d) = Err ValueError.
+Proof. exact unconvertible_option_value_rejected_lemma. Qed.
+Print Assumptions unconvertible_option_event_rejected.
+(* general form: some positional text does not convert, or the option scratch map ends up holding one that does not *)
+Theorem unconvertible_value_rejected : forall f d, fmt_ok f = true -> forms_ok f d = true ->
+  shape (get_arguments_all f) (values d) = true -> req_ok (get_arguments_all f) (values d) = true ->
+  (fits (get_arguments_all f) (values d) = false \/
+   exists n v, In (n, v) (fold_left SpellOpts.raw_event (events d) []) /\ bad_opt f n v) ->
+  forall len, parse f len (render d) = Err ValueError.
+Proof. exact unconvertible_value_lemma. Qed.
+Print Assumptions unconvertible_value_rejected.
